@@ -51,6 +51,9 @@ RULE = ("single API calls with every byte 0-255 (and 8 code points > 0xFF) embed
         "separators; non-trivial = the call carries a byte outside [0-9A-Za-z] in an application-controlled field or "
         "the handler makes >= 3 calls; distinct by canonical JSON")
 EXHAUSTIVE = {"quick": True, "thorough": True}
+CLAUSE_CAVEATS = [
+    "exact_lines and the oracle work at CRLF-line level: a header NAME that is not a token but contains no CR/LF/NUL (e.g. 'X: y' passed to set_header) still yields one line and is not flagged — the property text speaks of header lines, not of token validity",
+]
 CLAUSES = {
     "either the call is rejected with an exception or the serialized response contains exactly the intended header lines":
         "exact_lines + lines_intended + lines_nonempty + set_header_stores + convert_str_clean/convert_bytes_clean + "
